@@ -87,46 +87,6 @@ def reducer_apply(name, group, dtype):
     raise ValueError(name)
 
 
-def reduce(x, axis, name, dtype, depth, mask=False, keepdims=False):
-    """x: list (the array), depth: number of list levels.  Elements that agree on every coordinate except
-    the reduced one form a group."""
-    posaxis = axis + depth if axis < 0 else axis
-    if not (0 <= posaxis < depth):
-        raise Refuse("axis out of range")
-    return _reduce(x, posaxis, name, dtype, mask, keepdims)
-
-
-def _reduce(x, posaxis, name, dtype, mask, keepdims):
-    if posaxis == 0:
-        out = _combine([(i, e) for i, e in enumerate(x)], name, dtype, mask)
-        return [out] if keepdims else out
-    return [None if e is None else _reduce(e, posaxis - 1, name, dtype, mask, keepdims) for e in x]
-
-
-def _combine(items, name, dtype, mask):
-    """items: (position along the reduced axis, element); missing elements are skipped"""
-    present = [(p, e) for p, e in items if e is not None]
-    if any(isinstance(e, list) for _, e in present) or (not present and False):
-        n = max(len(e) for _, e in present)
-        return [_combine([(p, e[j]) for p, e in present if j < len(e)], name, dtype, mask) for j in range(n)]
-    if not present and items and False:
-        pass
-    if not present:
-        # nothing to combine: whether this position is a list level or a leaf is decided by the caller's type
-        return EMPTYGROUP(name, dtype, mask)
-    if mask and not present:
-        return None
-    return reducer_apply(name, present, dtype)
-
-
-class _Empty:
-    pass
-
-
-def EMPTYGROUP(name, dtype, mask):
-    return None if mask else reducer_apply(name, [], dtype)
-
-
 def reduce_typed(x, T, axis, name, mask=False, keepdims=False):
     """type-directed version: T is the element type of the array x (so x : list of T)"""
     depth, dtype = list_depth(T)
@@ -158,3 +118,97 @@ def _combine_t(items, T, name, dtype, mask):
     if not present and mask:
         return None
     return reducer_apply(name, present, dtype)
+
+
+# ------------------------------------------------------------------------------------------ structure (C05)
+
+def num(x, posaxis):
+    if posaxis == 0:
+        return len(x)
+    return [None if e is None else num(e, posaxis - 1) for e in x]
+
+
+def flatten(x, posaxis):
+    """posaxis >= 1: concatenate, in order, the lists found at that level; a missing list contributes nothing"""
+    if posaxis == 1:
+        out = []
+        for e in x:
+            if e is not None:
+                out.extend(e)
+        return out
+    return [None if e is None else flatten(e, posaxis - 1) for e in x]
+
+
+def localindex(x, posaxis):
+    if posaxis == 0:
+        return list(range(len(x)))
+    return [None if e is None else localindex(e, posaxis - 1) for e in x]
+
+
+# ------------------------------------------------------------------------------------------ missing values (C09)
+
+def rpad(x, target, posaxis, clip):
+    if posaxis == 0:
+        out = list(x) + [None] * max(0, target - len(x))
+        return out[:target] if clip else out
+    return [None if e is None else rpad(e, target, posaxis - 1, clip) for e in x]
+
+
+# ------------------------------------------------------------------------------------------ combinations (C07)
+
+def combinations(x, n, replacement, posaxis, positions=False):
+    if posaxis == 0:
+        src = list(range(len(x))) if positions else x
+        it = itertools.combinations_with_replacement(src, n) if replacement else itertools.combinations(src, n)
+        return [tuple(t) for t in it]
+    return [None if e is None else combinations(e, n, replacement, posaxis - 1, positions) for e in x]
+
+
+# ------------------------------------------------------------------------------------------ sorting (C06)
+
+def _sortkey(v):
+    # NaN first (the library's convention, in both directions)
+    return v
+
+
+def sort_list(vals, ascending):
+    """non-missing elements ordered with NaN first, then by value; missing values last"""
+    present = [v for v in vals if v is not None]
+    nans = [v for v in present if isinstance(v, float) and v != v]
+    rest = [v for v in present if not (isinstance(v, float) and v != v)]
+    rest.sort(reverse=not ascending)
+    return nans + rest + [None] * (len(vals) - len(present))
+
+
+def sort(x, posaxis, ascending):
+    if posaxis == 0:
+        return sort_list(x, ascending)
+    return [None if e is None else sort(e, posaxis - 1, ascending) for e in x]
+
+
+def is_sorted_realisation(orig, positions, ascending, stable):
+    """positions realise the required order of one list `orig` (argsort): a permutation of the positions of the
+    non-missing elements (then the missing ones), values taken in that order are sort_list(orig), ties in original
+    order when stable"""
+    n = len(orig)
+    if sorted(positions) != list(range(n)):
+        return False
+    taken = [orig[p] for p in positions]
+    want = sort_list(orig, ascending)
+    for a, b in zip(taken, want):
+        if a is None or b is None:
+            if not (a is None and b is None):
+                return False
+        elif isinstance(a, float) and a != a:
+            if not (isinstance(b, float) and b != b):
+                return False
+        elif a != b:
+            return False
+    if stable:
+        for i in range(n - 1):
+            a, b = taken[i], taken[i + 1]
+            same = (a is None and b is None) or (a is not None and b is not None and
+                                                 ((a != a and b != b) or a == b))
+            if same and positions[i] > positions[i + 1]:
+                return False
+    return True
